@@ -293,7 +293,7 @@ def run(ctx):
         N = c["N"]
         x = int(rng.integers(0, c["n"]))
         if mode == "exp":
-            _a, eps, co = ec.first_eigh(cap, "advance_del" + which)
+            _a, eps, co = ec.first_eigh(cap, "advance_del" + which, W=H)
         else:
             eps, co = np.zeros(N), np.eye(N, dtype=complex)
         if which == "R":
